@@ -1951,7 +1951,7 @@ func (c *Ctx) rulesR4bounds2() {
 	}
 	n := 0
 	for _, f := range c.Funcs {
-		if f.Parent() != nil || f.Pkg == nil || relPkg(f.Pkg.Pkg.Path()) != pm || !isExportedFunc(f) {
+		if f.Parent() != nil || f.Pkg == nil || (relPkg(f.Pkg.Pkg.Path()) != pm && relPkg(f.Pkg.Pkg.Path()) != "pkg/helpers") || !isExportedFunc(f) {
 			continue
 		}
 		inScope := false
